@@ -18,6 +18,7 @@ import (
 	"net/url"
 	"reflect"
 	"sort"
+	"strconv"
 	"strings"
 	"time"
 )
@@ -289,6 +290,8 @@ type recordingClient struct {
 	api  http.Handler
 	last string
 	stub *http.Response
+	// header field lines of the last in-process response, as the generated client is about to see them
+	lastRespHeader http.Header
 }
 
 func (c *recordingClient) Do(r *http.Request) (*http.Response, error) {
@@ -310,7 +313,9 @@ func (c *recordingClient) Do(r *http.Request) (*http.Response, error) {
 	}
 	w := httptest.NewRecorder()
 	c.api.ServeHTTP(w, r)
-	return w.Result(), nil
+	res := w.Result()
+	c.lastRespHeader = res.Header.Clone()
+	return res, nil
 }
 
 // newClientFor: the API's own LocalClient (so that the base URL is whatever goag wires in),
@@ -453,6 +458,7 @@ func clientCall(p *Pkg, c *Case) string {
 	}
 	ctor := names[a.Resp%len(names)]
 	var parsed, sentResp string
+	var sentV reflect.Value
 	apiPtr.Elem().FieldByName(field).Set(reflect.MakeFunc(ft, func(args []reflect.Value) []reflect.Value {
 		parsed = callParseBodies(args[1])
 		fn := reflect.ValueOf(p.Funcs[ctor])
@@ -480,6 +486,7 @@ func clientCall(p *Pkg, c *Case) string {
 		if conc.Kind() == reflect.Struct {
 			// dump what is about to be sent; raw bodies are rewound afterwards
 			sentResp = conc.Type().Name() + dumpRespKeepingBodies(conc)
+			sentV = conc
 		}
 		out := reflect.New(iface).Elem()
 		out.Set(res)
@@ -521,16 +528,148 @@ func clientCall(p *Pkg, c *Case) string {
 		return "PANIC:" + hx(fmt.Sprint(perr))
 	}
 	got := "err:"
+	var gotV reflect.Value
 	if !res[1].IsNil() {
 		got += hx(res[1].Interface().(error).Error())
 	} else {
 		rv := res[0].Elem()
 		got = rv.Type().Name() + dumpWithBodies(rv)
+		gotV = rv
+	}
+	hdrs := ""
+	if st == nil && sentV.IsValid() && rc.lastRespHeader != nil {
+		hdrs = " hdrs=" + headerFacts(sentV, gotV, rc.lastRespHeader)
 	}
 	if st != nil && (st.status == 204 || st.status == 304 || (st.status >= 100 && st.status < 200)) {
 		return "skip:status-without-body" // net/http does not transmit a body with these statuses
 	}
-	return fmt.Sprintf("sent=%s parsed=%s wire=%s respsent=%s respgot=%s", sentParams, parsed, rc.last, sentResp, got)
+	return fmt.Sprintf("sent=%s parsed=%s wire=%s respsent=%s respgot=%s%s", sentParams, parsed, rc.last, sentResp, got, hdrs)
+}
+
+// headerFacts: for every field of the sent response's Headers struct, the declaration as the Go
+// type shows it (leaf type, array, required), the field lines the server really wrote under the
+// header's key, and the canonical text of the value sent and of the value the client returned.
+// This is the input and the observation of the Lean model Goag.RespHdr (writeLines / readLines).
+// Entry: field|type|arr|req|lines|sent|got ; type "x" = a leaf the model does not have (float, time).
+func headerFacts(sent, got reflect.Value, wire http.Header) string {
+	norm := func(s string) string {
+		var b strings.Builder
+		for _, c := range strings.ToLower(s) {
+			if (c >= 'a' && c <= 'z') || (c >= '0' && c <= '9') {
+				b.WriteRune(c)
+			}
+		}
+		return b.String()
+	}
+	hs := sent.FieldByName("Headers")
+	if !hs.IsValid() || hs.Kind() != reflect.Struct {
+		return "-"
+	}
+	var gh reflect.Value
+	if got.IsValid() && got.Kind() == reflect.Struct && got.Type() == sent.Type() {
+		gh = got.FieldByName("Headers")
+	}
+	leafTag := func(t reflect.Type) string {
+		if t.PkgPath() != "" && t.Name() != "" && t.Kind() != reflect.Struct {
+			// a named component / custom type: its own parser, not the model's
+			return "x"
+		}
+		switch t.Kind() {
+		case reflect.Int:
+			return "int0"
+		case reflect.Int32:
+			return "int32"
+		case reflect.Int64:
+			return "int64"
+		case reflect.Bool:
+			return "bool"
+		case reflect.String:
+			return "str"
+		}
+		return "x"
+	}
+	leafText := func(v reflect.Value) string {
+		switch v.Kind() {
+		case reflect.Int, reflect.Int32, reflect.Int64:
+			return strconv.FormatInt(v.Int(), 10)
+		case reflect.Bool:
+			return strconv.FormatBool(v.Bool())
+		case reflect.String:
+			return "x" + hx(v.String())
+		}
+		return "?"
+	}
+	canon := func(v reflect.Value, opt, arr bool) string {
+		if opt {
+			if !v.FieldByName("IsSet").Bool() {
+				return "u"
+			}
+			v = v.FieldByName("Value")
+		}
+		if arr {
+			var xs []string
+			for i := 0; i < v.Len(); i++ {
+				xs = append(xs, leafText(v.Index(i)))
+			}
+			return "m:" + strings.Join(xs, ",")
+		}
+		return "o:" + leafText(v)
+	}
+	var out []string
+	for i := 0; i < hs.NumField(); i++ {
+		name := hs.Type().Field(i).Name
+		ft := hs.Type().Field(i).Type
+		opt := isWrapper(ft, "Maybe")
+		it := ft
+		if opt {
+			vf, ok := ft.FieldByName("Value")
+			if !ok {
+				continue
+			}
+			it = vf.Type
+		}
+		arr := it.Kind() == reflect.Slice && it.Name() == ""
+		if arr {
+			it = it.Elem()
+		}
+		tag := leafTag(it)
+		var keys []string
+		for k := range wire {
+			if norm(k) == norm(name) {
+				keys = append(keys, k)
+			}
+		}
+		lines := "-"
+		if len(keys) > 1 {
+			tag = "x"
+		} else if len(keys) == 1 {
+			var ls []string
+			for _, l := range wire[keys[0]] {
+				ls = append(ls, "x"+hx(l))
+			}
+			if len(ls) > 0 {
+				lines = strings.Join(ls, ",")
+			}
+		}
+		sentC, gotC := "?", "err"
+		if tag != "x" {
+			sentC = canon(hs.Field(i), opt, arr)
+			if gh.IsValid() {
+				gotC = canon(gh.Field(i), opt, arr)
+			}
+		}
+		b2 := func(b bool) string {
+			if b {
+				return "1"
+			}
+			return "0"
+		}
+		out = append(out, strings.Join([]string{name, tag, b2(arr), b2(!opt), lines, sentC, gotC}, "|"))
+	}
+	if len(out) == 0 {
+		return "-"
+	}
+	return strings.Join(out, ";")
 }
 
 // statusTransport remembers the status code the server really answered with.
